@@ -106,11 +106,9 @@ def main():
             rules_hit.add(v)
         if sig == "UNSUPPORTED":
             n_unsup += 1
-            if tier != "quick":
-                continue
-            # quick tier: its units are enumerated by TLC (no random choice) and none of them is answered 'not implemented'
-            # on the pinned commit + fixes, so P9999 in place of a verdict is judged like any other wrong answer
-            # (the same excuse hid seeded change C07-8 in C07); the thorough tier's pairs of edits keep the 10 % budget
+            # the units are enumerated by TLC (no random choice) and none of them - 48 000 in the quick tier, 209 324 in the
+            # thorough tier, measured in the fourth session - is answered 'not implemented' on the pinned commit + fixes, so
+            # P9999 in place of a verdict is judged like any other wrong answer (the same excuse hid seeded change C07-8 in C07)
             sig = ("valid-unit-rejected:P9999" if not rec["violated"] else "wrong-code:%s:reported=P9999" % rec["violated"][0])
         if sig:
             rep.add(sig, labels=labels_of(rec),
